@@ -22,7 +22,8 @@ From Verif Require Import Base.Result Base.PyDict Model.Domain Model.Exec Model.
   Base.Sexp Model.Types
   Proofs.C18_Dict Proofs.C18_Alpha Proofs.C18_Denote Proofs.C18_Exec Proofs.C18_Check Proofs.C18_Parser Proofs.C18_Legacy
   Proofs.C18_Main Proofs.C18_Seq Proofs.C18_ParsedDomain
-  Model.ChangeSignatureAlpha Proofs.C18_AlphaStep Proofs.C18_Repaired.
+  Model.ChangeSignatureAlpha Proofs.C18_AlphaStep Proofs.C18_Repaired
+  Proofs.C18_AlphaSem Proofs.C18_AlphaCorrect Proofs.C18_AlphaWF.
 Import ListNotations.
 Open Scope string_scope.
 Open Scope list_scope.
@@ -269,6 +270,77 @@ Example C18_capture_repaired :
     (do ga <- ground_action ex_dom ex_act ["o0"; "o1"; "o2"]; is_applicable ex_dom ex_eps (Some ex_objs) ga ex_state_cc).
 Proof. exact capture_repaired. Qed.
 
+(* ---- the alpha step is CORRECT (wave 2): mappings that DO land on a quantified variable.  Whenever the code's model
+        returns on a well-formed action whose object model denotes the action A (Spec.Pddl), under a mapping that moves
+        parameters only and is injective on the names in sight (the parameters and the free names of A) - with NO clause
+        about the quantified variables: a new name may be one of them, and may be one of the fresh names ?v_0, ?v_1 ... the
+        library would pick - the result denotes an action A' with the renamed parameter list (same number, order, types)
+        that is applicable in the same states and has the same successors as A for every argument tuple.  A' is
+        Spec.Rename.ren_action (rn m) A up to the names of the bound variables: the proof relates the two formulas by
+        Proofs.C18_AlphaSem.simf (truth under environments that agree through the substitution), the generalisation of the
+        lemma behind C18_alpha (Proofs.C18_Alpha.holds_ren) to quantifiers whose variable changes name; what it uses of
+        fresh_variable_name is what that function tests (not a token of the printed quantifier, neither a key nor a value
+        of the mapping in force).  "Returns": running out of fuel (Err EFuel) is excluded by the hypothesis ---- *)
+Theorem C18_alpha_correct (m : renaming) (a a' : maction) (A : action) :
+  nodup_action a -> denote_action a = Some A ->
+  (forall n, ~ In n (params A) -> rn m n = n) ->
+  inj_on (rn m) (params A ++ free_action A) ->
+  change_signature_a m a = Ok a' ->
+  exists A', denote_action a' = Some A' /\
+    a_name A' = a_name A /\
+    a_params A' = map (fun pt => (rn m (fst pt), snd pt)) (a_params A) /\
+    forall eps tt objs args s, List.length args = List.length (a_params A) ->
+      applicable eps tt objs A' args s = applicable eps tt objs A args s /\
+      successor eps tt objs A' args s = successor eps tt objs A args s.
+Proof. exact (change_signature_a_correct m a a' A). Qed.
+
+(* the same with computable hypotheses: well_formed is what the parser guarantees (C18_parsed_domain_well_formed),
+   alpha_okb decides the two conditions on the mapping *)
+Theorem C18_alpha_correct_checked (m : renaming) (a a' : maction) (A : action) :
+  well_formed a = true -> denote_action a = Some A -> alpha_okb A m = true ->
+  change_signature_a m a = Ok a' ->
+  exists A', denote_action a' = Some A' /\
+    a_name A' = a_name A /\
+    a_params A' = map (fun pt => (rn m (fst pt), snd pt)) (a_params A) /\
+    forall eps tt objs args s, List.length args = List.length (a_params A) ->
+      applicable eps tt objs A' args s = applicable eps tt objs A args s /\
+      successor eps tt objs A' args s = successor eps tt objs A args s.
+Proof. exact (change_signature_a_correct_b m a a' A). Qed.
+
+(* the step underneath, for one condition: the renamed condition holds in e' exactly when the original holds in e, for
+   all environments that agree through the mapping on the free names *)
+Theorem C18_alpha_condition (fuel : nat) (m : renaming) (p p' : mpre) (F : form) :
+  rename_pre_a fuel m p = Ok p' -> denote_pre p = Some F -> nodup_pre p -> inj_on (rn m) (free_form F) ->
+  exists F', denote_pre p' = Some F' /\
+    forall eps tt objs s e e', agree_on (rn m) e e' (free_form F) ->
+      holds eps tt objs e' s F' = holds eps tt objs e s F.
+Proof. exact (rename_pre_a_sim fuel m p p' F). Qed.
+
+(* its hypotheses are satisfiable by a mapping OUTSIDE renaming_ok: an action with a quantified precondition that nests a
+   second quantifier and a quantified effect, a parameter already named ?x_1; ?a -> ?x (the quantified variable),
+   ?b -> ?x_0 (the first fresh name the library would try), ?x_1 -> ?x_2 (the inner quantifier's variable).  The
+   quantifiers move to ?x_3 and ?x_2_0 *)
+Example C18_example_alpha :
+  well_formed al_act = true /\ denote_action al_act = Some al_A /\ alpha_okb al_A al_map = true /\
+  (forall dom, renaming_ok dom al_act al_map = false) /\
+  exists a', change_signature_a al_map al_act = Ok a' /\
+    ma_sig a' = [("?x", "t0"); ("?x_0", "t0"); ("?x_2", "t0")] /\
+    In (MUniv "?x_3" "t0" (MPre "or" [MLit true "p" ["?x_3"; "?x"]; MLit true "q" ["?x_0"];
+                                      MUniv "?x_2_0" "t0" (MPre "and" [MLit true "p" ["?x_2_0"; "?x_3"]; MLit true "q" ["?x_2"]] [] [])] [] []))
+       (match ma_pre a' with MPre _ os _ _ => os end).
+Proof. exact al_example. Qed.
+
+(* why the fresh name must stay clear of the VALUES of the mapping (the capture a weaker test would allow) *)
+Example C18_alpha_values_needed :
+  let A := {| a_name := "a"; a_params := [("?a", "t"); ("?b", "t")];
+              a_pre := FForall "?x" "t" (FOr [FAtom "p" ["?x"]; FAtom "q" ["?b"]]); a_effs := [] |} in
+  let captured := {| a_name := "a"; a_params := [("?x", "t"); ("?x_0", "t")];
+                     a_pre := FForall "?x_0" "t" (FOr [FAtom "p" ["?x_0"]; FAtom "q" ["?x_0"]]); a_effs := [] |} in
+  let s := {| facts := [("q", ["o1"])]; fluents := [] |} in
+  applicable 0%float [] [("o1", "t"); ("o2", "t")] A ["o1"; "o1"] s = true /\
+  applicable 0%float [] [("o1", "t"); ("o2", "t")] captured ["o1"; "o1"] s = false.
+Proof. exact al_values_matter. Qed.
+
 (* ---- the code before eb5fde6 (Model.ChangeSignature.change_signature is its model): the literal reading was refuted
         by a quantified variable as well (witness ?z -> ?u; finding D75b, fixed) ---- *)
 Definition C18_before_D75b_full_statement : Prop :=
@@ -323,6 +395,9 @@ Print Assumptions C18_rename_partial.
 Print Assumptions C18_refuted.
 Print Assumptions C18_alpha_step_inactive.
 Print Assumptions C18_repaired_model.
+Print Assumptions C18_alpha_correct.
+Print Assumptions C18_alpha_correct_checked.
+Print Assumptions C18_alpha_condition.
 Print Assumptions C18_before_D75b_partial.
 Print Assumptions C18_before_D75b_refuted.
 Print Assumptions C18_legacy_partial.
